@@ -136,6 +136,7 @@ class Ctx:
         self.noop_calls = {"print"}
         self.dyn_getattr = {}   # function qualname -> contract name for getattr with computed names
         self.call_overrides = {}  # (function qualname, call text) -> contract name
+        self.yield_events = {}    # generator function qualname -> callback contract standing for the with-block that runs at its bare `yield`
         self.expr_overrides = {}  # (function qualname, expression text) -> (contract name, [argument expressions]): an expression abstracted by an assumed contract
         self.type_of = False      # type(obj) of a modelled object is the uninterpreted type_of(obj) (a TypeObj reference)
         self.event_calls = {}   # "logger.warning" -> contract name (calls that are otherwise dropped)
@@ -157,6 +158,8 @@ class Ctx:
                 c["fields"][f] = s if (s == "py" or s.startswith("dotted:")) else parse_sort(s)
             if "callable_of" in cd:
                 c["callable_of"] = cd["callable_of"]
+            if cd.get("class_level"):
+                c["class_level"] = list(cd["class_level"])     # optional attributes that live on the class: a new instance may already have them
             if cd.get("exact"):
                 c["exact"] = True     # objects declared of this class really are instances of it (isinstance is decided statically)
             c["alias"].update(cd.get("alias", {}))
@@ -175,6 +178,7 @@ class Ctx:
         self.dyn_getattr.update(getattr(mod, "DYN_GETATTR", {}))
         self.call_overrides.update(getattr(mod, "CALL_OVERRIDES", {}))
         self.expr_overrides.update(getattr(mod, "EXPR_OVERRIDES", {}))
+        self.yield_events.update(getattr(mod, "YIELD_EVENTS", {}))
         self.type_of = self.type_of or bool(getattr(mod, "TYPE_OF", False))
         self.event_calls.update(getattr(mod, "EVENT_CALLS", {}))
         for sig, body in getattr(mod, "MACROS", {}).items():
@@ -495,7 +499,7 @@ class Task:
                 if c.ctor:      # a new object has none of its optional attributes yet
                     for cn in self.ctx.mro(self.receiver):
                         for fname, fs in self.ctx.classes.get(cn, {}).get("fields", {}).items():
-                            if fname.startswith("?"):
+                            if fname.startswith("?") and fname[1:] not in self.ctx.classes.get(cn, {}).get("class_level", []):      # class-level attributes / methods may exist before __init__ runs
                                 st.assume(z3.Not(self.read_field(st, self_v, fname).z))
                 continue
             s = c.params.get(n)
@@ -694,6 +698,12 @@ class Task:
         if isinstance(s.value, ast.Constant):
             self.dropped.add("docstrings")
             return [Outcome(Outcome.NORMAL, st)]
+        if isinstance(s.value, ast.Yield) and s.value.value is None and self.contract.source in self.ctx.yield_events:
+            # a bare `yield` of a @contextmanager generator: the body of the caller's with-block runs here (a callback that may raise)
+            outs = []
+            for s2, v, e in self.call_contract(st, self.ctx.contracts[self.ctx.yield_events[self.contract.source]], None, [], {}, s):
+                outs.append(Outcome(Outcome.RAISE, s2, exc=e) if e is not None else Outcome(Outcome.NORMAL, s2))
+            return outs
         return [Outcome(Outcome.NORMAL, s2) if e is None else Outcome(Outcome.RAISE, s2, exc=e)
                 for s2, v, e in self.ev(s.value, st)]
 
@@ -1301,6 +1311,15 @@ class Task:
                 if e is not None:
                     res.append((s2, None, e))
                     continue
+                if isinstance(m, V) and isinstance(m.sort, OptSort) and isinstance(m.sort.inner, MapSort):
+                    # Optional[dict]: None.items() raises AttributeError, otherwise the dict
+                    if self.feasible(s2, m.comps[0]):
+                        f2 = s2.fork(); f2.assume(m.comps[0])
+                        res.append((f2, None, "AttributeError"))
+                    if not self.feasible(s2, z3.Not(m.comps[0])):
+                        continue
+                    s2 = s2.fork(); s2.assume(z3.Not(m.comps[0]))
+                    m = V(m.sort.inner, m.comps[1:])
                 if isinstance(m, V) and isinstance(m.sort, MapSort):
                     dom, vals, keys = map_parts(m)
                     kind = node.func.attr
@@ -1359,7 +1378,7 @@ class Task:
     def ev(self, node, st):
         """-> list of (state, value, exc-name-or-None)"""
         m = getattr(self, "ex_" + type(node).__name__, None)
-        if self.ctx.expr_overrides and isinstance(node, (ast.Subscript, ast.Call, ast.BinOp, ast.Attribute, ast.Lambda, ast.Compare, ast.ListComp, ast.DictComp, ast.GeneratorExp, ast.SetComp)):
+        if self.ctx.expr_overrides and isinstance(node, (ast.Subscript, ast.Call, ast.BinOp, ast.Attribute, ast.Lambda, ast.Compare, ast.ListComp, ast.DictComp, ast.GeneratorExp, ast.SetComp, ast.JoinedStr)):
             ov = self.ctx.expr_overrides.get((self.contract.source, ast.unparse(node)))
             if ov is not None:
                 cn, argx = ov
@@ -2181,9 +2200,11 @@ class Task:
         pre = st.snapshot()
         res = []
 
-        def post(s, raised):
+        def post(s, raised, exn=None):
             self.havoc_modifies(s, c.modifies, self_v, env=env)
             e2 = dict(env)
+            if raised:
+                e2["exc"] = vstr(exn if isinstance(exn, str) else "UserBaseException")
             r = None
             if not raised:
                 if c.pure_result:
@@ -2225,7 +2246,7 @@ class Task:
         for exn in (c.raises if isinstance(c.raises, (list, tuple)) else [c.raises] if c.raises else []):
             rs = st.fork()
             rs.trace.append((getattr(node, "lineno", 0), f"{c.name} raises"))
-            post(rs, True)
+            post(rs, True, exn)
             if self.feasible(rs):
                 # user code may raise anything, including BaseException subclasses such as SystemExit: only a bare `except:` stops those
                 res.append((rs, None, exn if isinstance(exn, str) else "UserBaseException"))
